@@ -257,6 +257,7 @@ func init() {
 			{"dead-update", "no struct-typed local is assigned and field-updated without ever being read, passed on or returned (a modified copy that is lost while the stale original goes on being used)", func(c *Ctx) { ruleDeadUpdate(c, "pkg/core/native", "pkg/core/state") }},
 			{"check-all-loop", "a loop that rejects on a property of each element with an error return is not left early with a break (the elements after it would escape the check)", func(c *Ctx) { ruleCheckAllLoop(c, "pkg/core/native", "pkg/core/state") }},
 			{"local-option-outcome", "nothing fails (error return, panic) inside a branch taken only when the node-local SaveInvocations option is on", ruleLocalOptionOutcome},
+			{"serctx-alias", "the buffer SerializationContext.Serialize returns (valid only until the next Serialize of the same execution) is measured, copied or handed to copying sinks, never kept in a stack item, a struct or a slice", ruleSerCtxAlias},
 			{"cache-ro", "no write (field, element, delete/clear/copy, or through a parameter-mutating callee) through a native cache obtained with GetROCache, on any path (isCacheRW idiom handled by boolean correlation)", ruleCacheRO},
 			{"det-sources", "no wall clock, random source, environment or scheduler introspection is read in the closure of block processing except for values that flow only into logging/metrics", ruleDetSources},
 			{"det-maprange", "every map iteration in the closure of block processing is order-insensitive (keyed updates, or collected then sorted) or tabled with a reason", ruleDetMapRange},
@@ -386,6 +387,8 @@ func init() {
 			{"copy-complete", "a Copy method of a wire type (transaction parts, P2P payloads) that builds its result field by field names every field of the struct, or the field is tabled as a lazily recomputed cache: a copy that is encoded must give the bytes of the original", func(c *Ctx) { ruleCopyComplete(c, 12, "pkg/core/transaction", "pkg/network/payload") }},
 			{"codec-fields", "for every struct type with both halves of a codec family (binary, JSON, stack item) the fields the encoder reads and the fields the decoder restores are the same set, except for tabled asymmetries (cached identities, context carried by the enclosing message): a field written out and never restored is lost by a round trip", ruleCodecFields},
 			{"record-kind", "every function that decodes a trie node record (from the store, from a proof, from a peer) refuses the child-only kinds - hash node and empty node - before it uses the node: an empty record panics, a hash-node record makes the loaded node point at itself", func(c *Ctx) { ruleRecordKind(c, "pkg/core/mpt", "pkg/core/statesync") }},
+			{"serctx-alias", "the buffer SerializationContext.Serialize returns (valid only until the next Serialize of the same execution) is measured, copied or handed to copying sinks, never kept in a stack item, a struct or a slice", ruleSerCtxAlias},
+			{"sticky-error", "a decoder assigns the (possibly nil) result of a validation or hashing call to its reader's Err only behind a test of that Err: the first decoding error is never replaced", ruleStickyError},
 			{"codec-symmetry", "for every type with EncodeBinary and DecodeBinary the sequences of wire primitives on the writer/reader agree token by token when both are straight-line; otherwise the sets of primitive kinds agree", ruleCodecSymmetry},
 			{"codec-guards", "where the encoder and the decoder of one type both guard wire operations by comparing the same field with constants, the two sets of constants agree", ruleCodecGuards},
 			{"decode-context", "a decoder of a type whose wire shape depends on a context field (read, never assigned by its DecodeBinary: the consensus state-root flag) hands the context on to every nested value of a context-dependent type it creates", ruleDecodeContext},
